@@ -531,6 +531,15 @@ class Filer(hioing.Mixin):
             else:
                 shutil.rmtree(self.path)  # remove trailing dir of path (and all below)
 
+        if self.temp and self.path:  # remove temp head dir made by remake
+            tempDirPath = os.path.abspath(self.TempHeadDir)
+            rel = os.path.relpath(self.path, tempDirPath)
+            top = rel.split(os.path.sep)[0]
+            top = os.path.join(tempDirPath, top)
+            if (os.path.basename(top).startswith(self.TempPrefix) and
+                    top.endswith(self.TempSuffix) and os.path.isdir(top)):
+                shutil.rmtree(top)  # rm temp head and all below
+
 
 
 @contextmanager
